@@ -16,6 +16,7 @@ from harness import common
 from harness.common import CaseResult, Obl
 from model import families
 from model.families import Mesh, tile, refine_region
+from model.plotfile import Ref
 from oracles import slice3d
 from symx import core, patch
 from symx.fs import SymFS
@@ -123,6 +124,16 @@ def run_slice(mods, ref, fields, limit, serial, cn, ctx, posmode='sym', canary=F
                 if core.is_sym(g) and core.mentions_uninit(g.t):
                     obl.fail('%s: output[%r][%d, %d] depends on uninitialised memory' % (what, name, iy, ix))
                     return obl
+                if canary and not getattr(ref, 'exact_geometry', True):
+                    obl.fail('canary: the uninitialised-memory check of pixel (%d, %d) is reached' % (ix, iy))
+                    return obl
+                if not getattr(ref, 'exact_geometry', True):
+                    # geometry whose numbers are not dyadic: the coordinates the code computes in floating point and the
+                    # exact ones of the specification differ in the last bits, so values are not compared - what remains
+                    # decidable is that every pixel is determined by stored data, never by uninitialised memory
+                    obl.total += 1
+                    obl.trivial += 1
+                    continue
                 exp = spec.pixel(ix, iy, comp)
                 if exp is None:
                     obl.fail('%s: specification undefined at pixel (%d, %d)' % (what, ix, iy))
@@ -142,6 +153,8 @@ def run_slice(mods, ref, fields, limit, serial, cn, ctx, posmode='sym', canary=F
                 if core.is_sym(g):
                     obl.fail('%s: grid_level[%d, %d] depends on uninitialised memory or payload: %s' % (what, iy, ix, common.describe(g)))
                     return obl
+                if not getattr(ref, 'exact_geometry', True):
+                    continue
                 ok = float(g) in [float(l) for l in spec.levels_with_box(ix, iy)]
                 obl.holds(ok, '%s: grid_level[%d, %d] = %s, levels with a box there: %s' % (what, iy, ix, g, spec.levels_with_box(ix, iy)))
                 if not ok:
@@ -152,7 +165,14 @@ def run_slice(mods, ref, fields, limit, serial, cn, ctx, posmode='sym', canary=F
 def run_case(case):
     res = CaseResult()
     mods = common.mods()
-    ref = families.make_ref('p', case['mesh'], case['fields'], layout=case['layout'], geom=case['geom'])
+    if case.get('face_spelling'):
+        # the domain's upper corner as the run's input file spelled it (0.9), the box bounds as AMReX computes them
+        # (lo + index * dx = 0.8999999999999999 where the cell count is no power of two)
+        n0 = case['mesh'].ncell0
+        ref = Ref('p', 3, case['fields'], n0, case['mesh'].boxes, layout=case['layout'], lo=[0.0, 0.0, 0.0], dx0=[0.9 / n for n in n0], hi=[0.9, 0.9, 0.9])
+        ref.exact_geometry = False
+    else:
+        ref = families.make_ref('p', case['mesh'], case['fields'], layout=case['layout'], geom=case['geom'])
     viol = {}
     runs = []
     fl = field_lists(ref.fields)
@@ -252,8 +272,7 @@ def run_case(case):
     for sig, v in viol.items():
         if not common.claim('C07', sig):
             continue
-        d = make_replay(ref, v)
-        status, out = common.run_replay(d)
+        d, status, out = common.replay_portfolio(lambda: make_replay(ref, v))
         v2 = {'signature': sig, 'what': v['what'], 'replay': d}
         if status == 'reproduced':
             res['violations'].append(v2)
@@ -295,6 +314,11 @@ def cases():
         m = families.random_mesh(rnd, 3, max_levels=2, max_boxes=3, max_extent=4)
         m.name = 'rand%d-3d' % r
         out.append({'label': m.name, 'mesh': m, 'fields': fsets[r % 2], 'layout': families.scatter_layouts(m, rnd, 2), 'geom': r % 3})
+    # two spellings of the domain's upper faces (cell counts 3 and 6: lo + n * dx is an ulp below the corner)
+    l0 = tile((0, 0, 0), (5, 2, 2), [[3], [], []])
+    rlo, rhi = refine_region((2, 1, 1), (5, 2, 2))
+    for m in [Mesh('1box-3x2x2', 3, (3, 2, 2), [tile((0, 0, 0), (2, 1, 1), [[], [], []])]), Mesh('2lev-6x3x3', 3, (6, 3, 3), [l0, tile(rlo, rhi, [[], [], []])])]:
+        out.append({'label': '%s/face-spelling' % m.name, 'mesh': m, 'fields': fsets[0], 'layout': families.scatter_layouts(m, rnd, 2), 'geom': 0, 'face_spelling': True})
     return out
 
 
